@@ -18,6 +18,7 @@ from vc.shims import capture_locals
 from litex.soc.interconnect import wishbone as wb
 from litedram.frontend.wishbone import LiteDRAMWishbone2Native, LiteDRAMNative2Wishbone
 from .nativeport import add_memory_env, byte_at, bit_at, bv1
+from .c10_merge import wb_merge_contract                    # noqa: F401  (task function, looked up by name)
 
 PROPERTY = "C10"
 LEVEL = "other"
@@ -31,8 +32,13 @@ ASSUMPTIONS = [
     "Wishbone master: stb => cyc; payload stable while an access is pending; abort = cyc dropped; registered-feedback "
     "cti is free (classic 0 / incrementing 2 / end 7)",
     "per configuration (bus:port width ratios 1, 2, 1/2; base address)",
+    "burst up-converter lemmas (Wishbone2Native.burst_upconverter): proved for every master behaviour (only stb => cyc is "
+    "assumed; no payload-stability assumption is needed because the acknowledges are classified by the FSM state they are "
+    "given in); that the READ_DATA acknowledge answers the access the master is still presenting relies on the master "
+    "holding its payload (premise of the property; exercised by the bounded clauses)",
 ]
-EXPLANATION = "bounded contract check on the real bridge; inductive contract for the reverse bridge"
+EXPLANATION = ("bounded contract check on the real bridge; inductive contracts for the equal-width bridge FSM, the reverse "
+               "bridge and the burst up-converter's merge buffer / read cache (watched byte lane)")
 
 
 class WBHarness(Module):
@@ -240,6 +246,8 @@ def tasks(tier):
                         timeout_ms=1500000, difftest_cycles=60))
     for cfg in (dict(width=16), dict(width=32, base=0x40)):
         out.append(dict(fn="wb_proof_contract", cfg=cfg, modes=["inductive", "cover", "difftest"], weight=2, difftest_cycles=80))
+    for cfg in (dict(wb=8, port=16), dict(wb=8, port=32), dict(wb=16, port=32), dict(wb=8, port=64), dict(wb=8, port=16, base=0x10)):
+        out.append(dict(fn="wb_merge_contract", cfg=cfg, modes=["inductive", "cover", "difftest"], weight=2, difftest_cycles=80))
     for cfg in (dict(), dict(base=0x40)):
         out.append(dict(fn="reverse_contract", cfg=cfg, modes=["inductive", "cover", "difftest"], weight=1))
     return out
